@@ -9,7 +9,10 @@ trap 'cd /repo && git checkout -- . && git reset -q' EXIT
 cd /verif
 rc=0
 for p in "$@"; do
+  # evidence files describe the unchanged tree: keep them out of mutant runs
+  [ -f evidence/$p.json ] && cp evidence/$p.json /var/tmp/evidence-$p.json.keep
   out=$(VERIF_BUDGET_S=${VERIF_BUDGET_S:-30} ./check.sh "$p" quick 2>&1); code=$?
+  [ -f /var/tmp/evidence-$p.json.keep ] && mv /var/tmp/evidence-$p.json.keep evidence/$p.json
   echo "$out" | grep -E "^(VIOLATION|violation:|KNOWN-FINDING|runs=)" | cut -c1-300
   echo "== $p exit=$code"
   [ $code -eq 2 ] && echo "$out" | tail -15
